@@ -9,15 +9,15 @@ EXTENDS Naturals, Sequences, FiniteSets, TLC, Json
 VARIABLES in, phase, out
 vars == <<in, phase, out>>
 
-Payloads  == {"valid", "invalid", "undecodable", "empty", "decodepanic", "local"}   \* local = Broadcast on the node itself
+Payloads  == {"valid", "invalid", "undecodable", "empty", "decodepanic", "local", "localInvalid"}   \* local = Broadcast on the node itself
 Verifiers == {"nil", "soft", "wrapSoft", "hard", "wrapHard", "plain", "panic", "notset"}
 \* (a local Broadcast before SetVerifier blocks inside gossipsub until the node shuts down — gossipsub validates local
 \* messages under its own root context — so that cell has no observable outcome and is not part of the table)
-Inputs == {i \in [payload : Payloads, verifier : Verifiers] : ~(i.payload = "local" /\ i.verifier = "notset")}
+Inputs == {i \in [payload : Payloads, verifier : Verifiers] : ~(i.payload \in {"local", "localInvalid"} /\ i.verifier = "notset")}
 
 Obs(v, d, r) == [verdict |-> v, delivered |-> d, relayed |-> r]
 
-Decodes(p) == p \in {"valid", "invalid", "local"}
+Decodes(p) == p \in {"valid", "invalid", "local", "localInvalid"}
 Good(p)    == p \in {"valid", "local"}           \* decodes and passes Validate
 
 \* implementation layer: verifyMessage in code order
